@@ -3,7 +3,7 @@
 From Coq Require Import List NArith Bool.
 From SV Require Import SM.FsChain SM.FsChainProofs SM.FsChainRel SM.FsChainRaw SM.FsChainCompose SM.FsChainForms
      SM.FsChainFormsProofs SM.FsChainWhole SM.FsChainWholeProofs SM.FsChainRead SM.FsChainReadProofs SM.FsChainAdd
-     SM.FsChainAddProofs SM.FsChainWalkGen SM.FsChainNoise SM.FsChainProperty.
+     SM.FsChainAddProofs SM.FsChainWalkGen SM.FsChainNoise SM.FsChainNoiseRaw SM.FsChainProperty.
 Import ListNotations.
 Open Scope N_scope.
 
@@ -76,14 +76,13 @@ Proof.
     split; [exact K|]. split; [exact Hc|]. destruct (k_store m) as [[[c l] d]|]; [apply Fc; exact Hst|exact I].
   - intros ms f f0 Hms. cbv zeta. rewrite Fdd, Frm. cbn [chain_walk_mode]. split.
     + apply (chain_walk_dedup RelDropSegs (s_dedup_ops s) ms f).
-    + intros x Hx. apply (chain_walk_lookup_closed_all (s_dedup_ops s) ms f f0 x Fdo); [|exact Hx].
+    + intros x Hx. apply (chain_walk_lookup_closed_spelt (s_dedup_ops s) ms f f0 x Fdo); [|exact Hx].
       eapply Forall_impl; [|exact Hms].
-      intros m [[b [fs [p [p0 [Hb [-> [Hc [Hp0 [Hsp [Hf0 Hsf]]]]]]]]]]|[fs [p [-> [Hf0 [-> [Hc [Hnd [Hp Hex]]]]]]]]].
+      intros m [[b [fs [p [p0 [Hb [-> [Hc [Hp0 [Hsp [Hf0 Hsf]]]]]]]]]]|[fs [p [p0 [-> [Hc [Hnd [Hp0 [Hsp [Hf0 [Hsf Hex]]]]]]]]]]].
       * left. destruct (Fb _ Hb) as [K [W N]]. exists b, fs, p, p0. split; [reflexivity|]. split; [exact W|]. split; [exact N|].
         split; [exact K|]. split; [exact Hc|]. split; [exact Hp0|]. split; [exact Hsp|]. split; [exact Hf0|exact Hsf].
-      * right. split; [reflexivity|]. split; [exact Hf0|].
-        exists (s_raw_rel s), (s_raw_walk s), fs, p. split; [reflexivity|]. split; [exact Frel|]. split; [exact Fw|].
-        split; [exact Hc|]. split; [exact Hnd|]. split; [exact Hp|exact Hex].
+      * right. exists (s_raw_rel s), (s_raw_walk s), fs, p, p0. split; [reflexivity|]. split; [exact Frel|]. split; [exact Fw|].
+        split; [exact Hc|]. split; [exact Hnd|]. split; [exact Hp0|]. split; [exact Hsp|]. split; [exact Hf0|]. split; [exact Hsf|exact Hex].
 Qed.
 
 Theorem property_holds_for_every_ok_source s : source_ok s = true -> property_holds s.
